@@ -300,7 +300,20 @@ def _content(mod, bt, v, ch):
             parts.append((T.min_tag(mod, m.type, tg) if k == 'SET' else None, encode(mod, m.type, mv, ch, tg)))
         # members absent from v that have a DEFAULT: optionally materialise explicitly
         if k == 'SET':
-            parts.sort(key=lambda p: p[0])
+            # X.690 10.3 (DER): components ordered by their tags; NOTE: an untagged CHOICE component is placed according to the
+            # tag of the alternative actually encoded - i.e. by the identifier octets that are really there
+            def _ident_key(enc):
+                b0 = enc[0]
+                num = b0 & 0x1f
+                if num == 0x1f:
+                    num, i = 0, 1
+                    while True:
+                        num = (num << 7) | (enc[i] & 0x7f)
+                        if not enc[i] & 0x80:
+                            break
+                        i += 1
+                return (b0 >> 6, num)
+            parts.sort(key=lambda p: _ident_key(p[1]))
             if len(parts) > 1:
                 import itertools
                 n = len(parts)
